@@ -43,9 +43,11 @@
 **            (MAX = EXCEPTION_MAX_DEPTH read from the library's own Exception.c, D = number of try blocks
 **            open at once, no sentinel, so D = MAX is the last level the library documents as legal);
 **            every level has a non-matching filter except a target level (outermost / middle / innermost /
-**            none); A or B is thrown at the bottom; optionally the target handler throws the other object
-**            to an outer target (or to nobody).  Each case runs in a forked child; judged: which handlers
-**            ran, the bound object, len(current(Exception)) on entry, in the body, in the handler and after
+**            none); A or B is thrown at the bottom; optionally the target handler throws the other object,
+**            or re-throws the object it was given (rs=1), to an outer target (or to nobody).  Each case runs
+**            in a forked child whose top frame owns the stack-class objects; judged: which handlers
+**            ran, the bound object, the marks the handlers left in the thrower's objects,
+**            len(current(Exception)) on entry, in the body, in the handler and after
 **            every construct that completes, exit status / diagnostic, and a following ordinary program.
 **
 ** Parameters: objs=types|struct|string|int|mixed1|mixed2|mixed3|cmptry|cmpthrow (what is thrown: singleton types with
@@ -784,9 +786,9 @@ static const char* lev_txt(int L) {
 }
 
 static char* render_trace(const struct ev* t, int n) {
-  size_t cap = 32 + (size_t)(n > 0 ? n : 0) * 24, k = 0;
+  size_t cap = 128 + (size_t)(n > 0 ? n : 0) * 96, k = 0;      /* the longest event text is below 96 characters */
   char* o = malloc(cap); o[0] = 0;
-  for (int i = 0; i < n && i < MAXEV; i++) {
+  for (int i = 0; i < n && i < MAXEV && k + 96 < cap; i++) {
     char s[16];
     switch (t[i].kind) {
       case 'S': slot_txt(s, sizeof s, t[i].a); k += snprintf(o + k, cap - k, "S(%s:%d)@%d ", s, t[i].b, t[i].depth); break;
